@@ -5,6 +5,8 @@ import HmfVerif.Proofs.AnalysisWindows
 import HmfVerif.Proofs.ExprLemmas
 import HmfVerif.Spec.Wiring
 import HmfVerif.Gen.ExprFlow
+import HmfVerif.Gen.Guards
+import HmfVerif.Spec.Guards
 /-!
 # C04 — mass variance σ(R) equals its defining integral for every filter
 `Quad.sigmaDisc` is the discretised object `Filter.sigma` computes (composite Simpson in ln k of
@@ -172,5 +174,8 @@ theorem gaussian_sigma_nonincreasing (ks Ps : List ℝ) (order : Nat) (dlnk r1 r
     sigmaDisc (gaussW opq ρ) ks Ps order dlnk r2 ≤ sigmaDisc (gaussW opq ρ) ks Ps order dlnk r1 :=
   sigmaDisc_antitone _ ks Ps order dlnk r1 r2 hd hk hP (fun k hkm => gaussW_sq_antitone opq ρ k r1 r2 (hk k hkm) hr1 hr)
 end GaussianMonotone
+
+/-- the small-argument guards of the windows are the documented ones (top-hat 1.4e-6, its derivative 1e-3, sharp-k edge at 1); no new special case -/
+theorem guards_filters : Gen.Guards.filters = Spec.Guards.filters := by decide
 
 end Hmf.C04
